@@ -10,4 +10,5 @@ CONSTANTS
   CFates = {"lose"}
   WithPing = FALSE
   Variant = "fixed"
+  Apis = {FALSE}
 CHECK_DEADLOCK FALSE
